@@ -280,7 +280,7 @@ package etcd
 //@   ensures [header-more-count] err == nil ==> resp != nil && resp.Header != nil && resp.Header.Revision == int64(R.Header.Revision) && resp.More == R.More && resp.Count == ite(R.More, len(R.Kvs)+1, len(R.Kvs))
 
 //@   ensures [every-key-value-in-order] err == nil ==> len(resp.Kvs) == len(R.Kvs) && forall(i, 0 <= i && i < len(resp.Kvs), resp.Kvs[i] != nil && resp.Kvs[i].Key == R.Kvs[i].Key && resp.Kvs[i].Value == R.Kvs[i].Value && resp.Kvs[i].ModRevision == int64(R.Kvs[i].Revision))
-//@   loop 0 invariant [converted-so-far] resp != nil && resp.More == response.More && resp.Header != nil && resp.Header.Revision == int64(response.Header.Revision) && resp.Count == ite(response.More, len(response.Kvs)+1, len(response.Kvs)) && len(resp.Kvs) == rangeindex+1 && -1 <= rangeindex && rangeindex < len(response.Kvs) && forall(i, 0 <= i && i < len(resp.Kvs), resp.Kvs[i] != nil && resp.Kvs[i].Key == response.Kvs[i].Key && resp.Kvs[i].Value == response.Kvs[i].Value && resp.Kvs[i].ModRevision == int64(response.Kvs[i].Revision))
+//@   loop 0 invariant [converted-so-far] resp != nil && resp.More == response.More && resp.Header != nil && resp.Header.Revision == int64(response.Header.Revision) && resp.Count == ite(response.More, len(response.Kvs)+1, len(response.Kvs)) && len(resp.Kvs) == iter && 0 <= iter && iter <= len(response.Kvs) && forall(i, 0 <= i && i < len(resp.Kvs), resp.Kvs[i] != nil && resp.Kvs[i].Key == response.Kvs[i].Key && resp.Kvs[i].Value == response.Kvs[i].Value && resp.Kvs[i].ModRevision == int64(response.Kvs[i].Revision))
 
 //@ func (*backendShim).Count(ctx, r) (resp, err)
 //@   props C16 C20
